@@ -127,6 +127,88 @@ theorem mask_exact_of_covers (c : Cache) (t : Tok) (hlen : c.cells.length = c.ro
     simp only [List.mem_range] at hj
     exact hnone j hj (by omega)
 
+/-! ### `SetCausal` / `CausalOptions.Except` -/
+
+theorem visE_true (W : Option Int) (q : Nat) (p : Int) (e : Entry) : visE true W q p e = vis W q p e := by
+  simp [visE, vis]
+
+/-- what an excepted token sees: its causal history plus the entries of its sequence at later
+    positions (the lower window bound still applies) -/
+theorem visE_false (W : Option Int) (q : Nat) (p : Int) (e : Entry) :
+    visE false W q p e = (vis W q p e || (decide (q ∈ e.seqs) && decide (e.pos > p) && inWindow W e.pos p)) := by
+  by_cases h1 : q ∈ e.seqs <;> by_cases h2 : e.pos > p <;> cases h3 : inWindow W e.pos p <;> simp [visE, vis, h1, h2, h3]
+
+def exposedEntriesAt (c : Cache) (i : Nat) (t : Tok) : List Entry := (exposedAt c i t).filterMap (entryAt c)
+
+/-- **The mask is exact, with exceptions**: for a token at batch index `i` whose sequence is covered
+    by the current range, the exposed entries are exactly the spec's `visibleE` with the causal test
+    enabled iff `i` is not listed in `opts.Except`. -/
+theorem mask_exact_flag_of_covers (en : Bool) (c : Cache) (t : Tok) (hlen : c.cells.length = c.rows.length)
+    (hcov : Covers c t) :
+    ((List.range' c.curRange.min (c.curRange.max + 1 - c.curRange.min)).filter (maskBitE en c t)).filterMap (entryAt c)
+      = visibleE en c.window (abs c) t.seq t.pos := by
+  obtain ⟨hmax, hcov⟩ := hcov
+  have hnone : ∀ j, j < c.cells.length → (j < c.curRange.min ∨ c.curRange.max < j) →
+      (entryAt c j).filter (visE en c.window t.seq t.pos) = none := by
+    intro j hj hout
+    rw [← maskBitE_entryAt]
+    have : maskBitE en c t j = false := by
+      unfold maskBitE
+      simp only [List.getD_eq_getElem?_getD, List.getElem?_eq_getElem hj, Option.getD_some]
+      by_cases hm : t.seq ∈ c.cells[j].seqs
+      · have := hcov j hj hm; omega
+      · simp [hm]
+    simp [this]
+  unfold visibleE
+  rw [abs_eq_range c hlen, filter_filterMap', filterMap_filter']
+  simp only [maskBitE_entryAt]
+  by_cases hle : c.curRange.min ≤ c.curRange.max
+  · rw [filterMap_range_restrict _ c.cells.length c.curRange.min (c.curRange.max + 1 - c.curRange.min) (by omega)]
+    intro j hj hout
+    exact hnone j hj (by omega)
+  · have hz : c.curRange.max + 1 - c.curRange.min = 0 := by omega
+    rw [hz]
+    simp only [List.range'_zero, List.filterMap_nil]
+    symm
+    apply filterMap_all_none
+    intro j hj
+    simp only [List.mem_range] at hj
+    exact hnone j hj (by omega)
+
+theorem mask_exact_except_of_covers (c : Cache) (i : Nat) (t : Tok) (hlen : c.cells.length = c.rows.length)
+    (hcov : Covers c t) :
+    exposedEntriesAt c i t = visibleE (!c.except.contains i) c.window (abs c) t.seq t.pos :=
+  mask_exact_flag_of_covers _ c t hlen hcov
+
+theorem setCausal_except (c : Cache) (ex : List Nat) : (setCausal c ex).except = ex := by
+  unfold setCausal; split
+  · assumption
+  · rfl
+
+theorem setCausal_inv (c : Cache) (ex : List Nat) (h : Inv c) : Inv (setCausal c ex) := by
+  unfold setCausal; split
+  · exact h
+  · exact ⟨h.len, h.cover, h.rmax, h.pad, h.size⟩
+
+theorem setCausal_abs (c : Cache) (ex : List Nat) : abs (setCausal c ex) = abs c := by
+  unfold setCausal; split <;> rfl
+
+/-- rebuilding the mask (`buildMask` pads `curCellRange` again) keeps every sequence covered -/
+theorem setCausal_covers (c : Cache) (ex : List Nat) (t : Tok) (h : Inv c) (hc : Covers c t) :
+    Covers (setCausal c ex) t := by
+  unfold setCausal; split
+  · exact hc
+  · obtain ⟨hmax, hcov⟩ := hc
+    have hpad := h.pad
+    have h1 := roundUp_le (c.curRange.max + 1) c.cachePad c.cells.length hpad.1 hpad.2 (by omega)
+    have h2 := roundUp_ge (c.curRange.max + 1) c.cachePad hpad.1
+    have h3 := roundDown_le c.curRange.min c.cachePad
+    constructor
+    · simp only [padRange]; omega
+    · intro j hj hs
+      have := hcov j hj hs
+      simp only [padRange]; omega
+
 theorem inv_defrag (c : Cache) (h : Inv c) : Inv (defrag c) :=
   defrag_inv c h (defragCore_moved _ _ _).1 (defragCore_moved _ _ _).2
 
@@ -175,10 +257,10 @@ theorem findStart_fits (cells : List Cell) (k s : Nat) (h : findStart cells k = 
     token's sequence lies inside the range covered by the mask and the K/V views. -/
 theorem startForward_covers (c : Cache) (b : List Tok) (h : Inv c) (hok : (startForward c b).2 = .ok) :
     Inv (startForward c b).1 ∧ ∀ t ∈ b, Covers (startForward c b).1 t := by
-  have h1 : Inv (slide { c with curBatch := b } b) := slide_inv _ b ⟨h.len, h.cover, h.rmax, h.pad, h.size⟩
+  have h1 : Inv (slide { c with curBatch := b, except := [] } b) := slide_inv _ b ⟨h.len, h.cover, h.rmax, h.pad, h.size⟩
   unfold startForward at hok ⊢
   simp only at hok ⊢
-  cases hf : findStart (slide { c with curBatch := b } b).cells b.length with
+  cases hf : findStart (slide { c with curBatch := b, except := [] } b).cells b.length with
   | some loc =>
     simp only [hf]
     obtain ⟨hfit, hpos⟩ := findStart_fits _ _ _ hf
@@ -189,7 +271,7 @@ theorem startForward_covers (c : Cache) (b : List Tok) (h : Inv c) (hok : (start
     · cases hok
     · rename_i hne
       simp only [hne, Bool.false_eq_true, if_false] at ⊢
-      cases hf2 : findStart (defrag (slide { c with curBatch := b } b)).cells b.length with
+      cases hf2 : findStart (defrag (slide { c with curBatch := b, except := [] } b)).cells b.length with
       | some loc =>
         simp only [hf2]
         obtain ⟨hfit, hpos⟩ := findStart_fits _ _ _ hf2
@@ -242,10 +324,10 @@ theorem startForward_inv (c : Cache) (b : List Tok) (h : Inv c) : Inv (startForw
   cases hr : (startForward c b).2 with
   | ok => exact (startForward_covers c b h hr).1
   | full | panic =>
-    have h1 : Inv (slide { c with curBatch := b } b) := slide_inv _ b ⟨h.len, h.cover, h.rmax, h.pad, h.size⟩
+    have h1 : Inv (slide { c with curBatch := b, except := [] } b) := slide_inv _ b ⟨h.len, h.cover, h.rmax, h.pad, h.size⟩
     unfold startForward at hr ⊢
     simp only at hr ⊢
-    cases hf : findStart (slide { c with curBatch := b } b).cells b.length with
+    cases hf : findStart (slide { c with curBatch := b, except := [] } b).cells b.length with
     | some loc => simp [hf] at hr
     | none =>
       simp only [hf] at hr ⊢
@@ -253,20 +335,94 @@ theorem startForward_inv (c : Cache) (b : List Tok) (h : Inv c) : Inv (startForw
       · exact h1
       · rename_i hne
         simp only [hne, Bool.false_eq_true, if_false] at hr
-        cases hf2 : findStart (defrag (slide { c with curBatch := b } b)).cells b.length with
+        cases hf2 : findStart (defrag (slide { c with curBatch := b, except := [] } b)).cells b.length with
         | some loc => simp [hf2] at hr
         | none => simpa using inv_defrag _ h1
+
+theorem slide_except (c : Cache) (b : List Tok) : (slide c b).except = c.except := by
+  unfold slide
+  cases c.window with
+  | none => rfl
+  | some w =>
+    simp only
+    generalize batchSeqs b = seqs
+    induction seqs generalizing c with
+    | nil => rfl
+    | cons seq rest ih =>
+      simp only [List.foldl_cons]
+      cases lowest b seq with
+      | none => exact ih c
+      | some low =>
+        rw [ih]
+        unfold slideSeq; cases c.ranges seq <;> rfl
+
+/-- **The exception set is per forward pass**: whatever `SetCausal` left behind, `StartForward`
+    (with any outcome) clears it. -/
+theorem startForward_except (c : Cache) (b : List Tok) : (startForward c b).1.except = [] := by
+  have hs : (slide { c with curBatch := b, except := [] } b).except = [] := slide_except _ b
+  unfold startForward
+  simp only
+  cases findStart (slide { c with curBatch := b, except := [] } b).cells b.length with
+  | some loc => simp [finishForward, place_except, hs]
+  | none =>
+    simp only
+    split
+    · exact hs
+    · cases findStart (defrag (slide { c with curBatch := b, except := [] } b)).cells b.length with
+      | some loc => simp [finishForward, place_except, defrag, hs]
+      | none => simp [defrag, hs]
+
+theorem visibleE_true (W : Option Int) (s : Spec) (q : Nat) (p : Int) : visibleE true W s q p = visible W s q p := by
+  unfold visibleE visible
+  have : visE true W q p = vis W q p := funext (visE_true W q p)
+  rw [this]
+
+/-- **mask_exact for a pass with `SetCausal`.**  After an accepted `StartForward`, `Put` and
+    `SetCausal(ctx, {Except: ex})`: the token at batch index `i` is shown exactly the entries of its
+    sequence inside the window's lower bound, restricted to positions ≤ its own unless `i ∈ ex`
+    (then also the later positions of its sequence — `visE_false`). -/
+theorem mask_exact_pass (c : Cache) (b : List Tok) (ids : List Nat) (ex : List Nat) (h : Inv c)
+    (hok : (startForward c b).2 = .ok) :
+    let c' := setCausal (put (startForward c b).1 ids) ex
+    ∀ i t, b[i]? = some t →
+      exposedEntriesAt c' i t = visibleE (!ex.contains i) c'.window (abs c') t.seq t.pos := by
+  intro c' i t hit
+  have ht : t ∈ b := List.mem_of_getElem? hit
+  obtain ⟨hi, hcov⟩ := startForward_covers c b h hok
+  have hip : Inv (put (startForward c b).1 ids) := put_inv _ _ hi
+  have hcp : Covers (put (startForward c b).1 ids) t := hcov t ht
+  have := mask_exact_except_of_covers c' i t (setCausal_inv _ ex hip).len (setCausal_covers _ ex t hip hcp)
+  rw [this, setCausal_except]
+
+/-- **A pass without `SetCausal` is plainly causal, whatever happened before**: the state `c` may
+    carry any exception set from an earlier pass; after `StartForward` + `Put` every batch index is
+    shown exactly its causal history (no leak of earlier options). -/
+theorem mask_exact_plain_after_reset (c : Cache) (b : List Tok) (ids : List Nat) (h : Inv c)
+    (hok : (startForward c b).2 = .ok) :
+    let c' := put (startForward c b).1 ids
+    ∀ i t, b[i]? = some t → exposedEntriesAt c' i t = visible c'.window (abs c') t.seq t.pos := by
+  intro c' i t hit
+  have ht : t ∈ b := List.mem_of_getElem? hit
+  obtain ⟨hi, hcov⟩ := startForward_covers c b h hok
+  have hip : Inv c' := put_inv _ _ hi
+  have := mask_exact_except_of_covers c' i t hip.len (hcov t ht)
+  rw [this]
+  have he : c'.except = [] := startForward_except c b
+  rw [he]
+  exact visibleE_true _ _ _ _
 
 /-- one operation of a cache history -/
 inductive HOp where
   | fwd (b : List Tok) (ids : List Nat)
   | cp (src dst : Nat) (len : Int)
   | rm (seq : Nat) (b e : Int)
+  | sc (ex : List Nat)
 
 def stepH (c : Cache) : HOp → Cache
   | .fwd b ids => if (startForward c b).2 = .ok then put (startForward c b).1 ids else (startForward c b).1
   | .cp src dst len => Causal.copyPrefix c src dst len
   | .rm seq b e => (Causal.remove c seq b e).1
+  | .sc ex => setCausal c ex
 
 /-- **The invariant holds along every history**: any interleaving of forward passes (accepted or
     rejected), prefix copies and removals (accepted, refused half-way, or unsupported). -/
@@ -283,6 +439,7 @@ theorem inv_run (c : Cache) (ops : List HOp) (h : Inv c) : Inv (ops.foldl stepH 
       · exact startForward_inv c b h
     | cp src dst len => exact copyPrefix_inv c src dst len h
     | rm seq b e => exact remove_inv c seq b e h
+    | sc ex => exact setCausal_inv c ex h
 
 /-- **mask_exact after every history**: start from any initial configuration, run any history, then
     any batch that `StartForward` accepts is exposed exactly its visible history. -/
@@ -300,9 +457,9 @@ theorem mask_exact_all_histories (v : Variant) (w : Option Int) (maxSeq capacity
 
 /-- the state placement starts from: after window eviction, and after defrag if that was needed -/
 def placeBase (c : Cache) (b : List Tok) : Cache :=
-  match findStart (slide { c with curBatch := b } b).cells b.length with
-  | some _ => slide { c with curBatch := b } b
-  | none => defrag (slide { c with curBatch := b } b)
+  match findStart (slide { c with curBatch := b, except := [] } b).cells b.length with
+  | some _ => slide { c with curBatch := b, except := [] } b
+  | none => defrag (slide { c with curBatch := b, except := [] } b)
 
 
 
@@ -371,11 +528,11 @@ theorem forward_abs_perm (c2 : Cache) (loc : Nat) (b : List Tok) (ids : List Nat
 theorem startForward_put_abs_perm (c : Cache) (b : List Tok) (ids : List Nat) (h : Inv c)
     (hids : ids.length = b.length) (hok : (startForward c b).2 = .ok) :
     (abs (put (startForward c b).1 ids)).Perm (KV.store (abs (placeBase c b)) (b.zip ids)) := by
-  have h1 : Inv (slide { c with curBatch := b } b) := slide_inv _ b ⟨h.len, h.cover, h.rmax, h.pad, h.size⟩
+  have h1 : Inv (slide { c with curBatch := b, except := [] } b) := slide_inv _ b ⟨h.len, h.cover, h.rmax, h.pad, h.size⟩
   unfold startForward at hok ⊢
   unfold placeBase
   simp only at hok ⊢
-  cases hf : findStart (slide { c with curBatch := b } b).cells b.length with
+  cases hf : findStart (slide { c with curBatch := b, except := [] } b).cells b.length with
   | some loc =>
     simp only [hf]
     exact forward_abs_perm _ loc b ids hids h1.len (findStart_fits _ _ _ hf).1 (findStart_holes _ _ _ hf)
@@ -385,7 +542,7 @@ theorem startForward_put_abs_perm (c : Cache) (b : List Tok) (ids : List Nat) (h
     · cases hok
     · rename_i hne
       simp only [hne, Bool.false_eq_true, if_false]
-      cases hf2 : findStart (defrag (slide { c with curBatch := b } b)).cells b.length with
+      cases hf2 : findStart (defrag (slide { c with curBatch := b, except := [] } b)).cells b.length with
       | none => simp [hf2] at hok
       | some loc =>
         simp only [hf2]
@@ -615,26 +772,26 @@ theorem slide_window (c : Cache) (b : List Tok) : (slide c b).window = c.window 
     at positions ≤ its own, inside the window.  The window eviction the pass performed is invisible. -/
 theorem forward_exposes_stored_history (c : Cache) (b : List Tok) (ids : List Nat) (h : Inv c)
     (hids : ids.length = b.length) (loc : Nat)
-    (hfit : findStart (slide { c with curBatch := b } b).cells b.length = some loc)
+    (hfit : findStart (slide { c with curBatch := b, except := [] } b).cells b.length = some loc)
     (t : Tok) (ht : t ∈ b) :
     ((exposedEntries (put (startForward c b).1 ids) t).map key).Perm
       ((visible c.window (KV.store (abs c) (b.zip ids)) t.seq t.pos).map key) := by
   have hok : (startForward c b).2 = .ok := by unfold startForward; simp [hfit]
-  have hbase : placeBase c b = slide { c with curBatch := b } b := by unfold placeBase; simp [hfit]
+  have hbase : placeBase c b = slide { c with curBatch := b, except := [] } b := by unfold placeBase; simp [hfit]
   have hw : (put (startForward c b).1 ids).window = c.window := by
     unfold startForward
     simp only [hfit, put, finishForward]
     rw [(place_window _ _ _), ]
-    exact slide_window { c with curBatch := b } b
+    exact slide_window { c with curBatch := b, except := [] } b
   rw [mask_exact c b ids h hok t ht, hw]
   have hperm := startForward_put_abs_perm c b ids h hids hok
   rw [hbase] at hperm
   have h1 := (hperm.filter (vis c.window t.seq t.pos)).map key
   refine h1.trans ?_
-  have hs : abs (slide { c with curBatch := b } b) = match c.window with
+  have hs : abs (slide { c with curBatch := b, except := [] } b) = match c.window with
       | none => abs c
       | some w => specSlide (abs c) w b :=
-    slide_abs { c with curBatch := b } b ⟨h.len, h.cover, h.rmax, h.pad, h.size⟩
+    slide_abs { c with curBatch := b, except := [] } b ⟨h.len, h.cover, h.rmax, h.pad, h.size⟩
   simp only [visible, KV.store, List.filter_append, List.map_append]
   apply List.Perm.append_right
   rw [hs]
@@ -711,11 +868,11 @@ theorem startForward_unwind_abs (c : Cache) (b : List Tok) (h : Inv c)
     (hpb : PosBound (placeBase c b).cells) (hbp : ∀ t ∈ b, t.pos < maxInt32)
     (hnl : NoLater (placeBase c b).cells b) :
     abs (unwind (startForward c b).1 b) = abs (placeBase c b) := by
-  have h1 : Inv (slide { c with curBatch := b } b) := slide_inv _ b ⟨h.len, h.cover, h.rmax, h.pad, h.size⟩
+  have h1 : Inv (slide { c with curBatch := b, except := [] } b) := slide_inv _ b ⟨h.len, h.cover, h.rmax, h.pad, h.size⟩
   unfold startForward at hok ⊢
   unfold placeBase at hpb hnl ⊢
   simp only at hok ⊢
-  cases hf : findStart (slide { c with curBatch := b } b).cells b.length with
+  cases hf : findStart (slide { c with curBatch := b, except := [] } b).cells b.length with
   | some loc =>
     simp only [hf] at hpb hnl ⊢
     exact unwind_finishForward_abs _ loc b h1.len (findStart_fits _ _ _ hf).1 (findStart_holes _ _ _ hf) hpb hbp hnl
@@ -725,7 +882,7 @@ theorem startForward_unwind_abs (c : Cache) (b : List Tok) (h : Inv c)
     · cases hok
     · rename_i hne
       simp only [hne, Bool.false_eq_true, if_false]
-      cases hf2 : findStart (defrag (slide { c with curBatch := b } b)).cells b.length with
+      cases hf2 : findStart (defrag (slide { c with curBatch := b, except := [] } b)).cells b.length with
       | none => simp [hf2] at hok
       | some loc =>
         simp only [hf2]
@@ -817,7 +974,7 @@ theorem wrapper_rejected_batch_leaves_history (cs : List Cache) (b : List Tok) (
     unfold startForward at e3 ⊢
     unfold placeBase
     simp only at e3 ⊢
-    cases hf : findStart (slide { c with curBatch := b } b).cells b.length with
+    cases hf : findStart (slide { c with curBatch := b, except := [] } b).cells b.length with
     | some loc => simp [hf] at e3
     | none =>
       simp only [hf] at e3 ⊢
@@ -825,7 +982,7 @@ theorem wrapper_rejected_batch_leaves_history (cs : List Cache) (b : List Tok) (
       · cases e3
       · rename_i hne
         simp only [hne, Bool.false_eq_true, if_false]
-        cases hf2 : findStart (defrag (slide { c with curBatch := b } b)).cells b.length with
+        cases hf2 : findStart (defrag (slide { c with curBatch := b, except := [] } b)).cells b.length with
         | some loc => simp [hf2] at e3
         | none => rfl
 
